@@ -13,6 +13,7 @@ import (
 	"os"
 	"runtime"
 	"strconv"
+	"strings"
 	"sync"
 	"time"
 
@@ -166,6 +167,7 @@ var c12Pool = []c12Req{
 }
 
 const c12NoAnswer = "no answer within 4s (deadlock)"
+const c12VarsChanged = "the variables of the caller were changed by the request: "
 
 // c12Run answers one request; a request that does not come back is reported, not waited for
 func c12Run(root *ggql.Root, r c12Req) string {
@@ -185,13 +187,19 @@ func c12Run1(root *ggql.Root, r c12Req) (out string) {
 			out = fmt.Sprint("panic: ", p)
 		}
 	}()
-	// variables are the caller's: every request gets its own copy
-	var vars map[string]interface{}
-	if r.vars != nil {
-		b, _ := json.Marshal(r.vars)
-		_ = json.Unmarshal(b, &vars)
+	// variables are the caller's, and one caller may hand the same map to every request it makes: the
+	// library reads it and leaves it as it is
+	vars := r.vars
+	var before []byte
+	if vars != nil {
+		before, _ = json.Marshal(vars)
 	}
 	res := root.ResolveString(r.q, "", vars)
+	if vars != nil {
+		if after, _ := json.Marshal(vars); string(after) != string(before) {
+			return c12VarsChanged + string(before) + " -> " + string(after)
+		}
+	}
 	b, err := json.Marshal(res)
 	if err != nil {
 		return "marshal: " + err.Error()
@@ -248,6 +256,10 @@ func stress12(dur time.Duration, workers int, seed int64, maxRounds int64) int {
 			reqs++
 			if outs[i] == c12NoAnswer || base[picks[i]] == c12NoAnswer {
 				fmt.Printf("stress12: FAIL deadlock: request %d (%s) did not come back (seed %d round %d)\n", picks[i], c12Pool[picks[i]].q, seed, rounds)
+				return 1
+			}
+			if strings.HasPrefix(outs[i], c12VarsChanged) || strings.HasPrefix(base[picks[i]], c12VarsChanged) {
+				fmt.Printf("stress12: FAIL request %d (%s): %s %s\n", picks[i], c12Pool[picks[i]].q, outs[i], base[picks[i]])
 				return 1
 			}
 			if outs[i] != base[picks[i]] {
@@ -362,7 +374,7 @@ func c12Exec(input sx.S) (obs sx.S) {
 		if outs[i] == c12NoAnswer || c12Base[picks[i]] == c12NoAnswer {
 			return sx.L("deadlock")
 		}
-		if outs[i] == c12Base[picks[i]] {
+		if outs[i] == c12Base[picks[i]] && !strings.HasPrefix(outs[i], c12VarsChanged) {
 			out = append(out, "same")
 		} else {
 			out = append(out, sx.L("differs", sx.Hex(c12Diff(outs[i], c12Base[picks[i]]))))
